@@ -97,9 +97,11 @@ ExMsgs ==
     lls : IF Small THEN {<< >>, <<"x", "y">>} ELSE {<< >>, <<"x">>, <<"x", "y">>},
     llu : IF Small THEN {<< >>, <<"1", "18446744073709551615">>} ELSE {<< >>, <<"1">>, <<"1", "18446744073709551615">>},
     llb : {<< >>, <<"00ff", "">>},
-    llun : SeqsUpTo2(UnionValsA),
-    llunb : IF Small THEN {<< >>, <<"e:VAL_TWO", "u:7">>} ELSE SeqsUpTo2(UnionValsB),
+    llun : {<< >>},          \* the two union leaf-lists are chosen by the step (LlunVals, LlunbVals)
+    llunb : {<< >>},
     em : SUBSET EmKeys, emstr : Opt({"another"}), child : {{}, {"n1"}} ]
+LlunVals == SeqsUpTo2(UnionValsA)
+LlunbVals == IF Small THEN {<< >>, <<"e:VAL_TWO", "u:7">>} ELSE SeqsUpTo2(UnionValsB)
 
 NormEx(x) == IF x.em = {} THEN [x EXCEPT !.emstr = "-", !.child = {}] ELSE x
 
@@ -145,27 +147,39 @@ Annotated ==
    "/string", "/uint", "/bytes", "/enum", "/state/compress", "/leaflist-string", "/leaflist-uint", "/leaflist-bytes", "/leaflist-union", "/leaflist-union-b",
    "/list-name/single-key", "/list-name/config/single-key", "/list-name/another-field", "/list-name/child-list/key-one"}
 
-VARIABLE m
-vars == <<m>>
-Init == m \in (IF Family = "root" THEN {NormRoot(x) : x \in RootMsgs} ELSE {NormEx(x) : x \in ExMsgs})
-Next == UNCHANGED m
+\* One state per message.  For ExampleMessage the initial state fixes everything but the two
+\* union leaf-lists and the single step chooses them (so that TLC's workers share the messages
+\* and no set of millions of records is built); `chosen` marks a complete message.
+VARIABLES m, chosen
+vars == <<m, chosen>>
+Init ==
+  IF Family = "root"
+  THEN m \in {NormRoot(x) : x \in RootMsgs} /\ chosen = TRUE
+  ELSE /\ m \in ExMsgs
+       /\ (m.em = {} => (m.emstr = "-" /\ m.child = {}))
+       /\ chosen = FALSE
+Next ==
+  /\ ~chosen /\ chosen' = TRUE
+  /\ \E a \in LlunVals, b \in LlunbVals :
+        m' = [m EXCEPT !.llun = a, !.llunb = b]
 Spec == Init /\ [][Next]_vars
 
 Flat == IF Family = "root" THEN FlattenRoot(m) ELSE FlattenEx(m)
 
 \* the flattening determines the message (what ProtoFromPaths rebuilds from PathsFromProto's
 \* output is the message itself), and every path is annotated
-RoundTrip == Canonical(m) => (IF Family = "root" THEN UnflattenRoot(Flat) = m ELSE UnflattenEx(Flat) = m)
+RoundTrip == (chosen /\ Canonical(m)) => (IF Family = "root" THEN UnflattenRoot(Flat) = m ELSE UnflattenEx(Flat) = m)
 \* a message that is not canonical flattens exactly like the canonical message Unflatten returns
 NonCanonicalCollides ==
-  (Family = "example" /\ ~Canonical(m)) => LET t == UnflattenEx(Flat) IN t # m /\ Canonical(t) /\ FlattenEx(t) = Flat
-AnnotatedPaths == \A e \in Flat : StripKeys(e.p) \in Annotated
+  (chosen /\ Family = "example" /\ ~Canonical(m)) => LET t == UnflattenEx(Flat) IN t # m /\ Canonical(t) /\ FlattenEx(t) = Flat
+AnnotatedPaths == chosen => \A e \in Flat : StripKeys(e.p) \in Annotated
 
 SeqOfSet(S) == LET RECURSIVE F(_)
                    F(T) == IF T = {} THEN << >> ELSE LET x == CHOOSE x \in T : TRUE IN <<x>> \o F(T \ {x})
                IN F(S)
 
 Emit ==
+  chosen =>
   IF Family = "root"
   THEN PrintT("PMROOT " \o ToJson([hostname |-> m.hostname, ifs |-> SeqOfSet(m.ifs), ifdesc |-> [i \in IfNames |-> m.ifdesc[i]],
                                     subs |-> [i \in IfNames |-> SeqOfSet(m.subs[i])], subdesc |-> m.subdesc,
